@@ -16,8 +16,8 @@ import (
 	lptypes "github.com/elys-network/elys/x/leveragelp/types"
 	mctypes "github.com/elys-network/elys/x/masterchef/types"
 	oracletypes "github.com/elys-network/elys/x/oracle/types"
-	tokenomicstypes "github.com/elys-network/elys/x/tokenomics/types"
 	ptypes "github.com/elys-network/elys/x/parameter/types"
+	tokenomicstypes "github.com/elys-network/elys/x/tokenomics/types"
 )
 
 type cmtPubKey = cmtcrypto.PubKey
@@ -26,7 +26,7 @@ func noGas() storetypes.GasMeter { return storetypes.NewInfiniteGasMeter() }
 
 // PoolSpec describes one amm pool created during the setup prefix.
 type PoolSpec struct {
-	UseOracle bool     `json:"use_oracle"`
+	UseOracle bool      `json:"use_oracle"`
 	Denoms    [2]string `json:"denoms"`
 	Amounts   [2]string `json:"amounts"`
 	Weights   [2]int64  `json:"weights"`
@@ -39,15 +39,15 @@ type WorldSpec struct {
 	Scenario     Scenario          `json:"scenario"`
 	Prices       map[string]string `json:"prices"` // display -> price
 	Pools        []PoolSpec        `json:"pools"`
-	EdenPerYear  uint64            `json:"eden_per_year"`  // >0: time-based inflation (LM rewards) + eden enabled on all pools
-	RewardDenoms []string          `json:"reward_denoms"` // supported external-incentive denoms
+	EdenPerYear  uint64            `json:"eden_per_year"`      // >0: time-based inflation (LM rewards) + eden enabled on all pools
+	RewardDenoms []string          `json:"reward_denoms"`      // supported external-incentive denoms
 	GovMsgs      []string          `json:"gov_msgs,omitempty"` // interface-JSON msgs applied with gov authority at the end of setup
 }
 
 func DefaultWorldSpec() WorldSpec {
 	return WorldSpec{
-		Scenario: DefaultScenario(),
-		Prices:   map[string]string{"USDC": "1.0", "USDT": "1.0", "ATOM": "5.0", "ELYS": "3.0"},
+		Scenario:     DefaultScenario(),
+		Prices:       map[string]string{"USDC": "1.0", "USDT": "1.0", "ATOM": "5.0", "ELYS": "3.0"},
 		EdenPerYear:  6_307_200_000_000,
 		RewardDenoms: []string{"uusdt", ptypes.ATOM},
 		Pools: []PoolSpec{
